@@ -989,7 +989,22 @@ class ModelImpl(*_model_impl_base):
         elif name in self.global_refs:
             self.refmgr.change_ref(self, name, value)
         else:
+            for space in self.walk_named_spaces():
+                if name in space.named_spaces:
+                    # The reference would hide the child space
+                    # in the namespace of its parent
+                    raise KeyError(
+                        "Space named '%s' already exist in '%s'" % (
+                            name, space.get_fullname()))
             self.refmgr.new_ref(self, name, value, refmode)
+
+    def walk_named_spaces(self):
+        """All static spaces in the model"""
+        que = list(self.named_spaces.values())
+        while que:
+            space = que.pop(0)
+            yield space
+            que.extend(space.named_spaces.values())
 
     def del_attr(self, name):
 
